@@ -56,8 +56,13 @@ Stopper(p, o, i) == \/ Ran(o, i, "ckpt", "reject") \/ Ran(o, i, "ckpt", "raise")
                     \/ (p.stages[i].required /\ Ran(o, i, "proc", "raise") /\ ~Ran(o, i, "handler", "ok"))
 HaltStops(p, o) == p.halt => \A i \in 1..Len(p.stages) : Stopper(p, o, i) => \A k \in 1..Len(o.log) : o.log[k][1] <= i
 AllDone(p, o) == \A i \in 1..Len(p.stages) : Done(o, i) /\ ~Ran(o, i, "ckpt", "reject") /\ ~Ran(o, i, "ckpt", "raise")
-OutOf(o, i) == LET k == CHOOSE k \in 1..Len(o.log) : o.log[k][1] = i /\ o.log[k][2] \in {"proc", "handler"} /\ o.log[k][4] = "ok" IN o.log[k][5]
-InOf(o, i) == LET k == CHOOSE k \in 1..Len(o.log) : o.log[k][1] = i /\ o.log[k][2] = "proc" IN o.log[k][3]
+Missing == <<<<0, "missing">>>>           \* (total: a log without the event yields a value no real signal equals, never a TLC error)
+OutOf(o, i) == IF \E k \in 1..Len(o.log) : o.log[k][1] = i /\ o.log[k][2] \in {"proc", "handler"} /\ o.log[k][4] = "ok"
+               THEN LET k == CHOOSE k \in 1..Len(o.log) : o.log[k][1] = i /\ o.log[k][2] \in {"proc", "handler"} /\ o.log[k][4] = "ok" IN o.log[k][5]
+               ELSE Missing
+InOf(o, i) == IF \E k \in 1..Len(o.log) : o.log[k][1] = i /\ o.log[k][2] = "proc"
+              THEN LET k == CHOOSE k \in 1..Len(o.log) : o.log[k][1] = i /\ o.log[k][2] = "proc" IN o.log[k][3]
+              ELSE <<<<0, "absent">>>>
 Chained(p, o) == \A i \in 1..Len(p.stages) : InOf(o, i) = (IF i = 1 THEN <<>> ELSE OutOf(o, i - 1))
 SuccessMeansAll(p, o) == /\ (o.success <=> AllDone(p, o))
                          /\ (o.success => /\ Chained(p, o)
